@@ -227,6 +227,7 @@ def native_build(b, asan=False):
         for n in b.info['autostubs']:
             if re.fullmatch(r'[A-Za-z_]\w*', n): f.write('void %s(void) { printf("I|unmodelled function reached: %s|0\\n"); fflush(stdout); _Exit(97); }\n' % (n, n))
         for n in b.info['extern_globals']:
+            if n == '__dso_handle': continue
             if re.fullmatch(r'[A-Za-z_]\w*', n): f.write('char %s[4096] __attribute__((aligned(16)));\n' % n)
     must([CLANG, '-O0', '-w', '-DVX_NATIVE_IR', '-DVX_ENTRY=' + entry, src, '-x', 'c', os.path.join(ENG, 'native_rt.c'), stubs, '-o', ir_bin] + san, 'native build of IR closure')
     c_bin = None
